@@ -21,6 +21,7 @@ mod d_rxv8;
 mod d_scan;
 mod d_scope;
 mod d_sel;
+mod d_txt;
 
 pub struct Out {
   pub req: std::io::BufWriter<std::fs::File>,
@@ -134,6 +135,7 @@ fn main() {
     "scope" => d_scope::run(&args),
     "limits" => d_limits::run(&args),
     "fixb" => d_fixb::run(&args),
+    "txt" => d_txt::run(&args),
     "dlint" => d_dlint::run_all(&args),
     x => {
       eprintln!("unknown sub {}", x);
